@@ -19,7 +19,7 @@ import Hv.Storage.FaultLemmas
 import Hv.Basic.Verdict
 
 namespace Hv.C25
-open Hv.Storage
+open Hv.BlockStore
 
 /-- the fault has cleared: every further operation succeeds -/
 def cleared (s : FSt) : FSt := { s with rs := [], failed := false }
